@@ -11,7 +11,7 @@ FILM_SESSION = "1.2.840.10008.5.1.1.1"  # Print Management: all six DIMSE-N serv
 IVRLE = scp.IVRLE
 
 # return-value alphabet ------------------------------------------------------
-STATUS_SHAPES = ["ok", "warn", "fail", "unknown", "ds_ok", "ds_fail_extra", "ds_nostatus", "str", "none", "neg", "big"]
+STATUS_SHAPES = ["ok", "warn", "fail", "unknown", "ds_ok", "ds_fail_extra", "ds_fail_zero", "ds_nostatus", "str", "none", "neg", "big"]
 DS_SHAPES = ["ds", "none", "empty", "notads"]
 SPECIAL = ["raise", "abort", "arity1", "arity3", "scalar"]
 
@@ -31,6 +31,9 @@ def status_value(shape):
         return scp.status_ds(0x0000)
     if shape == "ds_fail_extra":
         return scp.status_ds(0x0110, ErrorComment="it failed", ErrorID=7)
+    if shape == "ds_fail_zero":
+        # optional status elements whose value is falsy but present (Error ID 0) must be copied too
+        return scp.status_ds(0x0110, ErrorComment="it failed", ErrorID=0)
     if shape == "ds_nostatus":
         return scp.status_ds(None, ErrorComment="x")
     if shape == "str":
@@ -164,7 +167,7 @@ def eval_single(service, sshape, dshape=None, special=None, msg_id=7, cx_id=1, t
             want = 0x0110  # a response dataset that cannot be encoded is a processing failure
         elif sshape in ("ok", "warn", "fail", "unknown"):
             want = status_value(sshape)
-        elif sshape in ("ds_ok", "ds_fail_extra"):
+        elif sshape in ("ds_ok", "ds_fail_extra", "ds_fail_zero"):
             want = status_value(sshape).Status
         elif sshape == "ds_nostatus":
             want = 0x0000 if service == "echo" else 0xC001
@@ -179,6 +182,10 @@ def eval_single(service, sshape, dshape=None, special=None, msg_id=7, cx_id=1, t
                 c21.append((f"status-{sshape}", f"handler returned status {status_value(sshape)!r}; response status {got!r} is not a failure"))
         elif want is not None and got != want:
             c21.append((f"status-{sshape}{'-' + special if special else ''}", f"handler returned {sshape}{'/' + special if special else ''}: response status {got!r}, documented {want:#06x}"))
+        if sshape == "ds_fail_zero" and not special and service.startswith("n-"):
+            snap = rs[0][1]
+            if snap.get("ErrorID") != 0 or snap.get("ErrorComment") != "it failed":
+                c21.append(("status-elements-not-copied", f"status dataset elements not copied: ErrorComment={snap.get('ErrorComment')!r} ErrorID={snap.get('ErrorID')!r} (handler supplied 'it failed', 0)"))
         if sshape == "ds_fail_extra" and not special:
             snap = rs[0][1]
             if snap.get("ErrorComment") != "it failed" or (service.startswith("n-") and snap.get("ErrorID") != 7):
